@@ -70,10 +70,12 @@ func (m *ModulusBasic) ModSymmetric(out *Int, x *Nat) {
 
 // Quo sets out = x / m.
 func (m *ModulusBasic) Quo(out, x *Nat) {
+	// The quotient of an announced-length-a numerator by a modulus of b bits needs up to a-b+2 bits
+	// (m.BitLen() bits only hold it while x < m * 2^BitLen(m)).
 	(*saferith.Nat)(out).Div(
 		(*saferith.Nat)(x),
 		(*saferith.Modulus)(m),
-		m.BitLen(),
+		max(x.AnnouncedLen()-m.BitLen()+2, 0),
 	)
 }
 
